@@ -62,6 +62,19 @@ def generate(rng, tier):
         init = [[fb(r32(rng.uniform(-1, 1))) for _ in range(dim)] for _ in range(2)]
         cases.append({"f": "f32", "target": tg, "init": init, "eps": fb(r32(0.05)), "L": 1, "k": 2,
                       "seed": str(rng.getrandbits(64)), "indep_row": 0})
+    # the step size is a public field: retuned between updates of one sampler (after accepted and after rejected steps)
+    for f in ["f32", "f64"]:
+        for tg, dim in [({"kind": "diag", "lam": [fb(1.0), fb(4.0)]}, 2), ({"kind": "gauss2d", "mean": [fb(0.0), fb(1.0)], "cov": [fb(2.0), fb(0.5), fb(0.5), fb(1.0)]}, 2)]:
+            rd_ = (lambda x: r32(x)) if f == "f32" else (lambda x: x)
+            cases.append({"f": f, "target": tg, "init": [[fb(rd_(rng.uniform(-1, 1))) for _ in range(dim)] for _ in range(3)],
+                          "eps": fb(rd_(0.5)), "L": 2, "k": 4, "seed": str(rng.getrandbits(64)), "indep_row": 1,
+                          "retune": [None, fb(rd_(0.2)), None, fb(rd_(0.7))]})
+    # one row of the batch overflows (energy error inf - inf = NaN) while the others are ordinary: rows are independent
+    for f, far in [("f32", 1e20), ("f64", 1e200)]:
+        rd_ = (lambda x: r32(x)) if f == "f32" else (lambda x: x)
+        init = [[fb(rd_(0.8)), fb(rd_(0.7))], [fb(rd_(far)), fb(rd_(-3.0))], [fb(rd_(-0.5)), fb(rd_(0.2))]]
+        cases.append({"f": f, "target": {"kind": "rosen2d", "a": fb(1.0), "b": fb(100.0)}, "init": init, "eps": fb(rd_(0.01)), "L": 3, "k": 3,
+                      "seed": str(rng.getrandbits(64)), "indep_row": 0})
     # one large batch (n_chains * dim >= 4096): the draw discipline and the step must not change with the batch size
     cases.append({"f": "f32", "target": {"kind": "diag", "lam": [fb(1.0)] * 16}, "init": [[fb(r32(rng.uniform(-1, 1))) for _ in range(16)] for _ in range(280)],
                   "eps": fb(r32(0.05)), "L": 1, "k": 1, "seed": str(rng.getrandbits(64)), "indep_row": 5})
@@ -141,6 +154,15 @@ def q_rows(case, out):
     return rows
 
 
+def eps_at(case, si):
+    """step size in force at update si (the public field may be reassigned between updates)"""
+    e = case["eps"]
+    for k, v in enumerate(case.get("retune", [])[:si + 1]):
+        if v is not None:
+            e = v
+    return e
+
+
 def step_groups(case, out):
     """(step index, rows) batches handed to Model.HMC.hmc_step over Q: the q_rows of one step with a finite ln u"""
     g = {}
@@ -165,14 +187,14 @@ def coq_term(case, out):
         d = st["dim"]
         x = qlist([bf(b) for b in st["pos_before"][r * d:(r + 1) * d]])
         p = qlist([bf(b) for b in st["momenta"][r * d:(r + 1) * d]])
-        parts.append("hmc_eval_q %s %s %s %s %s %s" % (qt[0], qt[1], dy(bf(case["eps"])), C.natlit(case["L"]), x, p))
+        parts.append("hmc_eval_q %s %s %s %s %s %s" % (qt[0], qt[1], dy(bf(eps_at(case, si))), C.natlit(case["L"]), x, p))
     for si, rs in step_groups(case, out):
         st = out["steps"][si]
         d = st["dim"]
         xs = "[" + "; ".join(qlist([bf(b) for b in st["pos_before"][r * d:(r + 1) * d]]) for r in rs) + "]"
         ps = "[" + "; ".join(qlist([bf(b) for b in st["momenta"][r * d:(r + 1) * d]]) for r in rs) + "]"
         lnus = qlist([bf(st["ln_u"][r]) for r in rs])
-        parts.append("hmc_step_eval_q %s %s %s %s %s %s %s" % (qt[0], qt[1], dy(bf(case["eps"])), C.natlit(case["L"]), xs, ps, lnus))
+        parts.append("hmc_step_eval_q %s %s %s %s %s %s %s" % (qt[0], qt[1], dy(bf(eps_at(case, si))), C.natlit(case["L"]), xs, ps, lnus))
     if "draw_events" in out and len(out["draw_events"]) <= 6000:
         st0 = out["steps"][0]
         parts.append("hmc_draws_eval %s %s %s %s" % (C.natlit(st0["n_chains"]), C.natlit(st0["dim"]), C.natlit(len(out["steps"])),
@@ -280,7 +302,7 @@ def oracle(case, out):
     if "panic" in out:
         return "HMC step panicked: " + out["panic"]
     L = case["L"]
-    eps = bf(case["eps"])
+    eps = max(bf(eps_at(case, si)) for si in range(max(1, len(out["steps"]))))
     ev = out.get("draw_events")
     for si, st in enumerate(out["steps"]):
         n, d = st["n_chains"], st["dim"]
